@@ -3016,3 +3016,66 @@ func workerSlotsArePositive(c *Ctx, r *Report, rule string) {
 	}
 	r.Floor(rule, "worker semaphores", n, 1)
 }
+
+// fetchLengthIsNotReduced: the length a loader hands to the fetcher is the requested one, or larger — never the
+// result of a subtraction. "What is left once the entries the caller holds are counted" is wrong as soon as one of
+// those entries lies in the past of another: the fetcher meets it again, counts it, and the load comes back short.
+func fetchLengthIsNotReduced(c *Ctx, r *Report, rule string) {
+	p := c.P
+	n := 0
+	for _, fn := range p.Fns {
+		if fn.Body == nil || fn.Pkg.PkgPath != p.pkgPath("") {
+			continue
+		}
+		sf := p.SSAFunc(fn)
+		if sf == nil {
+			continue
+		}
+		allInstrs(sf, false, func(ins ssa.Instruction) {
+			st, ok := ins.(*ssa.Store)
+			if !ok {
+				return
+			}
+			f, fa := fieldOf(st.Addr)
+			if f == nil || fa == nil || f.Name() != "Length" {
+				return
+			}
+			if nt := namedOf(derefType(fa.X.Type())); nt == nil || nt.Obj().Name() != "FetchOptions" {
+				return
+			}
+			n++
+			// the value is a pointer: what is stored through it in this function counts as well
+			vals := []ssa.Value{st.Val}
+			if al, ok := st.Val.(*ssa.Alloc); ok {
+				allInstrs(sf, false, func(i2 ssa.Instruction) {
+					if s2, ok := i2.(*ssa.Store); ok && s2.Addr == ssa.Value(al) {
+						vals = append(vals, s2.Val)
+					}
+				})
+			}
+			var bad *ssa.BinOp
+			for _, v := range vals {
+				for x := range backSlice(v, nil) {
+					if b, ok := x.(*ssa.BinOp); ok && b.Op == token.SUB && b.Parent() == sf {
+						bad = b
+					}
+				}
+			}
+			pos := st.Pos()
+			if bad != nil && bad.Pos().IsValid() {
+				pos = bad.Pos()
+			}
+			r.Check(bad == nil, rule, r.Key(rule, fn, "fetch-length", ""), pos,
+				"the length handed to the fetcher is not the result of a subtraction",
+				fmt.Sprintf("%s hands the fetcher a length it reduced by a subtraction: the fetcher counts every entry it meets against it, also one the caller already holds when that entry lies in the past of another — the load returns fewer entries than min(max(n, k), size)", fn.Name))
+		})
+	}
+	r.Floor(rule, "fetch lengths handed on by the constructors and loaders", n, 4)
+}
+
+func derefType(t types.Type) types.Type {
+	if pt, ok := t.Underlying().(*types.Pointer); ok {
+		return pt.Elem()
+	}
+	return t
+}
